@@ -581,7 +581,41 @@ func run(tb ev.TB, c xCase) (labels []string, nontrivial bool) {
 				}
 			}(g)
 		}
-		wg.Wait()
+		// every round trip has a context of at most 3 s: a call that is not back long after its context ended, while no
+		// other call returns either, observed neither its response nor an error
+		done := make(chan struct{})
+		go func() { wg.Wait(); close(done) }()
+		started := time.Now()
+		last, still := -1, 0
+	watchTr:
+		for {
+			select {
+			case <-done:
+				break watchTr
+			case <-time.After(5 * time.Second):
+			}
+			mu.Lock()
+			returned := len(outs)
+			mu.Unlock()
+			if returned == last {
+				still++
+			} else {
+				still = 0
+			}
+			last = returned
+			if time.Since(started) > 20*time.Second && still >= 3 {
+				total := 0
+				for _, g := range c.Goroutines {
+					total += len(g)
+				}
+				ev.Fail(tb, "xtalk", "c06/transport/calls-never-returned", c, "%d of %d round trips had returned %v after the start and none of the others returned during the last 15 s, although every call's context ends after at most 3 s: they observed neither their response nor an error", returned, total, time.Since(started).Round(time.Second))
+				return
+			}
+			if time.Since(started) > 15*time.Minute {
+				ev.Inconclusive("transport_slow_machine")
+				return
+			}
+		}
 	}
 	holds.Wait()
 
